@@ -32,6 +32,12 @@ func newStoreEnv(chans []int, seed int64) *storeEnv {
 			n = 10 // a power of ten: the width of the signature keys changes there
 		}
 		s.envs[c] = NewMachineEnv(n, c%2, seed*100+int64(c))
+		// boundary ids: the key of a channel in the tables of the store ends with / starts with its id, range and prefix
+		// scans meet the extreme bytes there: channel 1 gets an id that starts with 0xff, channel 3 one that starts with 0x00
+		want, ok := map[int]byte{1: 0xff, 3: 0x00}[c]
+		for k := int64(1); ok && s.envs[c].Params.ID()[0] != want && k < 20000; k++ {
+			s.envs[c] = NewMachineEnv(n, c%2, seed*100+int64(c)+1000*k)
+		}
 	}
 	rng := rand.New(rand.NewSource(seed))
 	for _, p := range []string{"me", "p1", "p2"} {
